@@ -53,11 +53,14 @@ def _pick(e: nodes.Node) -> tuple[nodes.Node, int] | None:
     return None
 
 
-def _carriers(c: nodes.Node) -> list[nodes.Node]:
-    """the collection and what it is a same-size view of: c, then c without `.values()` / `| list` / `| sort` ..."""
+def _carriers(c: nodes.Node, defs: "Defs | None" = None) -> list[nodes.Node]:
+    """the collection and what it is a same-size view of: c, then c without `.values()` / `| list` / `| sort` ... (a template-bound
+    variable is what it was bound to)"""
     out = [c]
     while True:
-        if isinstance(c, nodes.Filter) and c.name in SAME_SIZE_FILTERS and c.node is not None:
+        if _single(c, defs) is not None and len(out) < 8:
+            c = _single(c, defs)
+        elif isinstance(c, nodes.Filter) and c.name in SAME_SIZE_FILTERS and c.node is not None:
             c = c.node
         elif isinstance(c, nodes.Call) and isinstance(c.node, nodes.Getattr) and c.node.attr in SAME_SIZE_METHODS and not c.args and not c.kwargs:
             c = c.node.node
@@ -102,10 +105,38 @@ def _length_predicate(atom: nodes.Node, texts: set[str]) -> Any:
     return None
 
 
-def _known_to_hold(coll: nodes.Node, need: int, guards: tuple[Guard, ...], loops: tuple[str, ...], picked: nodes.Node | None = None) -> bool:
+Defs = dict[str, list[tuple[nodes.Node, tuple, tuple]]]
+
+
+def _single(e: nodes.Node, defs: Defs | None) -> nodes.Node | None:
+    """the one definition of a template-bound variable (None: not such a variable, or bound in several places)"""
+    ds = defs.get(e.name, []) if defs is not None and isinstance(e, nodes.Name) else []
+    return ds[0][0] if len(ds) == 1 else None
+
+
+def _expand(t: nodes.Node, defs: Defs | None, depth: int = 4) -> nodes.Node:
+    """a condition with the template-bound variables it reads replaced by what they were bound to, as far as its boolean structure and
+    the operands of its comparisons go: `{% set n = xs | length %}{% if n == 1 %}` tests what `{% if xs | length == 1 %}` tests"""
+    if depth <= 0:
+        return t
+    if isinstance(t, (nodes.And, nodes.Or)):
+        return type(t)(_expand(t.left, defs, depth), _expand(t.right, defs, depth), lineno=t.lineno)
+    if isinstance(t, nodes.Not):
+        return nodes.Not(_expand(t.node, defs, depth), lineno=t.lineno)
+    if isinstance(t, nodes.Name):
+        d = _single(t, defs)
+        return _expand(d, defs, depth - 1) if d is not None else t
+    if isinstance(t, nodes.Compare) and len(t.ops) == 1:
+        return nodes.Compare(_expand(t.expr, defs, depth), [nodes.Operand(t.ops[0].op, _expand(t.ops[0].expr, defs, depth))], lineno=t.lineno)
+    return t
+
+
+def _known_to_hold(coll: nodes.Node, need: int, guards: tuple[Guard, ...], loops: tuple[str, ...], picked: nodes.Node | None = None,
+                   defs: Defs | None = None) -> bool:
     """wherever these guards let the template through, the collection has at least `need` elements (or the picked element itself was
     tested: `{% if <pick> %}`, `<pick> is defined`)"""
-    texts = {expr_text(c) for c in _carriers(coll)}
+    texts = {expr_text(c) for c in _carriers(coll, defs)}
+    guards = tuple((_expand(t, defs), pol) for t, pol in guards)
     if need <= 1 and texts & set(loops):
         return True   # inside a loop over it
     atoms: dict[str, nodes.Node] = {}
@@ -115,9 +146,8 @@ def _known_to_hold(coll: nodes.Node, need: int, guards: tuple[Guard, ...], loops
     if not atoms or len(atoms) > 14:
         return False
     preds = {k: _length_predicate(a, texts) for k, a in atoms.items()}
-    ptxt = expr_text(picked) if picked is not None else None
-    tested = {k for k, a in atoms.items() if ptxt is not None and (
-        k == ptxt or (isinstance(a, nodes.Test) and a.name == "defined" and expr_text(a.node) == ptxt))}
+    ptxts = {expr_text(x) for x in ([picked, _single(picked, defs)] if picked is not None else []) if x is not None}
+    tested = {k for k, a in atoms.items() if k in ptxts or (isinstance(a, nodes.Test) and a.name == "defined" and expr_text(a.node) in ptxts)}
     if not any(p is not None for p in preds.values()) and not tested:
         return False
     names = sorted(atoms)
@@ -224,7 +254,8 @@ def _evaluated(tree: nodes.Template) -> list[tuple[str, nodes.Node, tuple[Guard,
             for e, g in _subexprs(top, guards)]
 
 
-def _at_call_sites(trees: dict[str, nodes.Template], evaluated: dict[str, list], macro: nodes.Macro, coll: nodes.Node, need: int, depth: int = 2) -> bool:
+def _at_call_sites(trees: dict[str, nodes.Template], evaluated: dict[str, list], alldefs: dict[str, Defs], macro: nodes.Macro, coll: nodes.Node, need: int,
+                   depth: int = 2) -> bool:
     """the collection is (part of) an argument of the macro: it is known to hold the element when it does at every call of the macro
     (the argument put in the parameter's place, the conditions of the call site) - and there is such a call"""
     import copy
@@ -252,31 +283,30 @@ def _at_call_sites(trees: dict[str, nodes.Template], evaluated: dict[str, list],
                 while parent.node is not _root(c2):
                     parent = parent.node
                 parent.node = arg
-            if _known_to_hold(c2, need, g, loops):
+            if _known_to_hold(c2, need, g, loops, defs=alldefs[tname]):
                 continue
             outer = next((m for m in trees[tname].find_all(nodes.Macro) if m.name == cm), None) if cm != "<top>" else None
-            if outer is None or depth <= 0 or not _at_call_sites(trees, evaluated, outer, c2, need, depth - 1):
+            if outer is None or depth <= 0 or not _at_call_sites(trees, evaluated, alldefs, outer, c2, need, depth - 1):
                 return False
     return calls > 0
 
 
 def sites_of(trees: dict[str, nodes.Template]) -> list[Site]:
     evaluated = {name: _evaluated(tree) for name, tree in trees.items()}
+    alldefs = {name: definitions(tree) for name, tree in trees.items()}
     out: list[Site] = []
     for name, tree in trees.items():
         macros = {m.name: m for m in tree.find_all(nodes.Macro)}
-        for st in sites(name, tree, evaluated[name]):
+        for st in sites(name, tree, evaluated[name], alldefs[name]):
             if not st.ok and st.macro in macros:
-                st.ok = _at_call_sites(trees, evaluated, macros[st.macro], st.coll, st.need)
+                st.ok = _at_call_sites(trees, evaluated, alldefs, macros[st.macro], st.coll, st.need)
             out.append(st)
     return out
 
 
-def sites(name: str, tree: nodes.Template, evaluated: list | None = None) -> list[Site]:
-    """the dereferences of picked elements in one template, each with whether the collection is known to hold the element there"""
-    # where each template-bound variable is defined, and under what (canonical names: the definitions of one name are one variable)
-    defs: dict[str, list[tuple[nodes.Node, tuple[Guard, ...], tuple[str, ...]]]] = {}
-
+def definitions(tree: nodes.Template) -> Defs:
+    """where each template-bound variable is defined, and under what (canonical names: the definitions of one name are one variable)"""
+    defs: Defs = {}
     def collect(body: list[nodes.Node], guards: tuple[Guard, ...], loops: tuple[str, ...]) -> None:
         for n in body:
             if isinstance(n, nodes.Macro):
@@ -305,7 +335,12 @@ def sites(name: str, tree: nodes.Template, evaluated: list | None = None) -> lis
 
     for _, body in _scopes(tree):
         collect(body, (), ())
+    return defs
 
+
+def sites(name: str, tree: nodes.Template, evaluated: list | None = None, defs: Defs | None = None) -> list[Site]:
+    """the dereferences of picked elements in one template, each with whether the collection is known to hold the element there"""
+    defs = defs if defs is not None else definitions(tree)
     out: list[Site] = []
     for macro, e, g, loops in (evaluated if evaluated is not None else _evaluated(tree)):
         if True:
@@ -322,9 +357,9 @@ def sites(name: str, tree: nodes.Template, evaluated: list | None = None) -> lis
                     for v, dg, dl in defs.get(base.name, []):
                         p = _pick(v)
                         if p is not None:
-                            held.append((v, p[0], p[1], _known_to_hold(p[0], p[1], dg, dl)))
+                            held.append((v, p[0], p[1], _known_to_hold(p[0], p[1], dg, dl, defs=defs)))
                 for pk, coll, need, ok_at_def in held:
-                    ok = ok_at_def or _known_to_hold(coll, need, g, loops, picked=base)
+                    ok = ok_at_def or _known_to_hold(coll, need, g, loops, picked=base, defs=defs)
                     out.append(Site(name, macro, e, pk, coll, need, ok))
     return out
 
@@ -337,6 +372,8 @@ CONTROL = (
     "{% for u in us %}{{ (us | first).name }}{% endfor %}"                            # inside a loop over it
     "{{ (ts | first).name if ts else '' }}"                                           # inline-if
     "{% if rs | length > 0 %}{{ rs[1].name }}{% endif %}"                             # one element known, two needed
+    "{% set n = ns | length %}{% set some = n > 0 %}{% if n == 1 %}{{ ns[0].name }}{% endif %}{% if some %}{{ (ns | last).name }}{% endif %}"
+    "{% set f = ms | first %}{% if f and f.name %}{{ f.name }}{% endif %}"          # the pick itself tested, through its variable
     "{% macro m(ps) %}{{ ps[0].name }}{% endmacro %}{% if qs %}{{ m(qs) }}{% endif %}"   # guarded where the macro is called
     "{% macro k(ps) %}{{ ps[0].name }}{% endmacro %}{{ k(os) }}"                       # ... and not
 )
@@ -354,4 +391,4 @@ def control() -> bool:
     got = sorted(f"{s.macro}:{expr_text(s.coll)}" for s in found if not s.ok)
     safe = sorted(f"{s.macro}:{expr_text(s.coll)}" for s in found if s.ok)
     return got == ["<top>:rs", "<top>:xs", "<top>:ys", "<top>:zs", "k:ps"] and \
-        safe == ["<top>:ts", "<top>:us", "<top>:vs", "<top>:vs", "<top>:ws.values()", "m:ps"]
+        safe == ["<top>:ms", "<top>:ms", "<top>:ns", "<top>:ns", "<top>:ts", "<top>:us", "<top>:vs", "<top>:vs", "<top>:ws.values()", "m:ps"]
